@@ -49,9 +49,27 @@ fn one(ctx: &mut Ctx, alg: &Algorithm, set: &Map<String, Value>, case: &Value) {
         1 => json!({"sub": "u", "name": "n", "vc": {"type": ["VerifiableCredential"]}, "status": {"idx": 1}}),
         _ => json!({"sub": "u", "name": "n"}),
     };
+    // the calls on the issuer object follow a schedule derived from the case: the header set first or last, or an
+    // earlier header (other values in the same members) signed with once before the final one is set - what
+    // reaches holder and verifier is the header configured when `encode()` is called (`C14_history`)
+    let sched = crate::report::hash_of(&json!([case, "c16-schedule"])) % 4;
     let out = real::guard(|| {
         let mut issuer = Issuer::new(claims.clone())?;
-        issuer.disclosable("/name").header(header.clone());
+        match sched {
+            1 => { issuer.header(header.clone()).disclosable("/name"); }
+            2 | 3 => {
+                let mut earlier = header.clone();
+                for f in [&mut earlier.typ, &mut earlier.cty, &mut earlier.jku, &mut earlier.kid, &mut earlier.x5u, &mut earlier.x5t, &mut earlier.x5t_s256] {
+                    if let Some(v) = f { *v = format!("earlier-{}", v); }
+                }
+                if let Some(v) = &mut earlier.x5c { v.push("ZWFybGllcg==".to_string()); }
+                if let Some(v) = &mut earlier.crit { v.push("earlier".to_string()); }
+                issuer.disclosable("/name").header(earlier);
+                if sched == 2 { let _ = issuer.encode(&keys::enc_key(fam, 0)); }
+                issuer.header(header.clone());
+            }
+            _ => { issuer.disclosable("/name").header(header.clone()); }
+        }
         issuer.encode(&keys::enc_key(fam, 0))
     });
     let token = match out {
